@@ -194,3 +194,19 @@ func Foreign(num uint64, wt int, payload []byte, varint uint64) PNodeRec {
 	}
 	return r
 }
+
+// Undeclared returns the first record, at any parsed level, whose field number
+// the level's schema does not declare.
+func (n *PNode) Undeclared() (num uint64, found bool) {
+	for _, r := range n.Recs {
+		if !n.Schema.Declared[r.Num] {
+			return r.Num, true
+		}
+		if r.Child != nil {
+			if num, found = r.Child.Undeclared(); found {
+				return num, true
+			}
+		}
+	}
+	return 0, false
+}
